@@ -32,7 +32,7 @@ def _worker(job):
             return {'key': key, 'kind': 'lemma', 'obligations': {key: o}, 'info': {'qualname': 'lemma:' + key},
                     'unsupported': None, 'error': None}
         db = ProgDB(REPO)
-        r = verify.verify_target(db, REG, key, timeout_ms=timeout_ms, want_smt2=True, findings=findings)
+        r = verify.verify_target(db, REG, key, timeout_ms=timeout_ms, want_smt2=True, findings=findings, modules=modules)
         return {'key': key, 'kind': 'target', 'obligations': r.obligations, 'info': r.info,
                 'unsupported': r.unsupported, 'error': r.error}
     except Exception as e:      # noqa
@@ -73,6 +73,25 @@ def main():
     findings_all = load_json(os.path.join(VERIF, 'known_findings.json'), {'findings': []})
     findings = [f for f in findings_all.get('findings', []) if f.get('property') == prop and 'fixed' not in f]
     lock = load_json(os.path.join(VERIF, 'obligations.lock.json'), {})
+    # a finding is "live" while its recorded witness still fails on the real code; only live findings restrict
+    # an obligation to the complement of their class
+    os.makedirs(os.path.join(VERIF, 'replays', prop), exist_ok=True)
+    for f in os.listdir(os.path.join(VERIF, 'replays', prop)):
+        os.unlink(os.path.join(VERIF, 'replays', prop, f))
+    env = dict(os.environ, PYTHONPATH='%s:%s' % (VERIF, REPO))
+    live = []
+    n_witness = 0
+    for fnd in findings:
+        wfile = os.path.join(VERIF, 'replays', prop, 'known-%s.json' % fnd.get('id'))
+        rp = dict(fnd['witness_replay'], property=prop, obligation=fnd['obligation'], modules=modules, finding=fnd.get('id'))
+        with open(wfile, 'w') as fh:
+            json.dump(rp, fh, indent=1)
+        p = subprocess.run([VENV_PY, '-m', 'pyvc.replay', wfile], env=env, cwd=VERIF, capture_output=True, text=True,
+                           timeout=300)
+        n_witness += 1
+        if p.returncode == 0:
+            live.append(fnd)
+    findings = live
     timeout_ms = 60000 if tier == 'quick' else 600000
     jobs = []
     for key, c in REG.contracts.items():
@@ -117,9 +136,6 @@ def main():
 
     os.makedirs(os.path.join(VERIF, 'evidence'), exist_ok=True)
     rdir = os.path.join(VERIF, 'replays', prop)
-    os.makedirs(rdir, exist_ok=True)
-    for f in os.listdir(rdir):
-        os.unlink(os.path.join(rdir, f))
 
     # ---- lock: every locked obligation must be produced ---------------------------------------------------
     locked = lock.get(prop, [])
@@ -134,15 +150,15 @@ def main():
     violations = []
     known_lines = []
     degraded = []
-    env = dict(os.environ, PYTHONPATH='%s:%s' % (VERIF, REPO))
-    n_replayed = 0
+    n_replayed = n_witness
     for oid in sorted(obligations):
         o = obligations[oid]
         v = o['verdict']
         if v == 'unsat':
             continue
         if v == 'known':
-            known_lines.append('KNOWN-FINDING: property=%s %s [%s]' % (prop, o.get('finding_what', ''), oid))
+            known_lines.append('KNOWN-FINDING: property=%s %s: %s [%s proved outside the recorded class; witness replayed]'
+                               % (prop, o.get('finding_id'), o.get('finding_what', ''), oid))
             continue
         rfile = os.path.join(rdir, oid.replace('/', '_').replace('#', '-') + '.json')
         rp = {'property': prop, 'obligation': oid, 'target': o['target'], 'kind': o['kind'], 'clause': o.get('clause'),
@@ -181,7 +197,8 @@ def main():
         degraded.append({'obligation': oid, 'reason': tgt[1] if tgt else 'not generated'})
 
     n_obl = len(obligations)
-    n_dis = sum(1 for o in obligations.values() if o['verdict'] in ('unsat',))
+    n_dis = sum(1 for o in obligations.values() if o['verdict'] in ('unsat', 'known'))
+    n_known = sum(1 for o in obligations.values() if o['verdict'] == 'known')
     solver_ms = sum(o.get('ms', 0) for o in obligations.values())
     samples = []
     for r in results:
@@ -196,7 +213,7 @@ def main():
     ev = {
         'property_id': prop, 'tier': tier, 'seed': seed, 'level': level,
         'coverage': {
-            'obligations': n_obl, 'discharged': n_dis,
+            'obligations': n_obl, 'discharged': n_dis, 'known_findings': n_known,
             'checker_cmd': 'cd /verif && ./check %s --tier %s' % (prop, tier),
             'trusted_base': sorted(trusted) + ['assumed contract (not verified here): ' + k for k in assumed
                                                if any(k in (f.get('callee_contracts') or []) for f in funcs)],
@@ -233,7 +250,7 @@ def main():
     for d in degraded:
         print('DEGRADED obligation=%s reason=%s' % (d['obligation'], d['reason']))
     for k, msg in crashed:
-        print('CHECKER-ERROR target=%s\n%s' % (k, msg))
+        print('CHECKER-ERROR target=%s\n%s' % (k, '\n'.join(msg.splitlines()[:2] + msg.splitlines()[-8:])))
     for v in violations:
         print(v)
     if violations:
